@@ -53,17 +53,30 @@ def tree_hash():
     return h.hexdigest()[:20]
 
 
+def _tool_fresh():
+    return os.path.exists(PHQX) and os.path.getmtime(PHQX) >= os.path.getmtime(TOOL_SRC)
+
+
 def ensure_tool():
-    if os.path.exists(PHQX) and os.path.getmtime(PHQX) >= os.path.getmtime(TOOL_SRC):
+    if _tool_fresh():
         return
     os.makedirs(os.path.dirname(PHQX), exist_ok=True)
-    cx = subprocess.run(["llvm-config-14", "--cxxflags"], capture_output=True, text=True, check=True).stdout.split()
-    cmd = ["clang++"] + cx + ["-fno-rtti", "-O1", "-std=c++17", TOOL_SRC, "-o", PHQX + ".tmp",
-                              "/usr/lib/llvm-14/lib/libclang-cpp.so.14", "/usr/lib/llvm-14/lib/libLLVM-14.so"]
-    r = subprocess.run(cmd, capture_output=True, text=True)
-    if r.returncode != 0:
-        raise AnalysisBroken("cannot build phqx: " + r.stderr[-2000:])
-    os.replace(PHQX + ".tmp", PHQX)
+    # several checks may start at once: one of them builds, the others wait for it
+    with open(PHQX + ".lock", "w") as lock:
+        fcntl.flock(lock, fcntl.LOCK_EX)
+        try:
+            if _tool_fresh():
+                return
+            tmp = "%s.tmp.%d" % (PHQX, os.getpid())
+            cx = subprocess.run(["llvm-config-14", "--cxxflags"], capture_output=True, text=True, check=True).stdout.split()
+            cmd = ["clang++"] + cx + ["-fno-rtti", "-O1", "-std=c++17", TOOL_SRC, "-o", tmp,
+                                      "/usr/lib/llvm-14/lib/libclang-cpp.so.14", "/usr/lib/llvm-14/lib/libLLVM-14.so"]
+            r = subprocess.run(cmd, capture_output=True, text=True)
+            if r.returncode != 0:
+                raise AnalysisBroken("cannot build phqx: " + r.stderr[-2000:])
+            os.replace(tmp, PHQX)
+        finally:
+            fcntl.flock(lock, fcntl.LOCK_UN)
 
 
 # ----------------------------------------------------------------------------------------------
